@@ -308,8 +308,12 @@ func workerMain(thorough bool) {
 			va := defaultBaselineVariant(site)
 			b := c.baseline(site, va)
 			n := 0
+			var bf *Finding
 			if b.loaded {
-				_, n = compare(b.x, b.x, b.y, va, b.vx, b.vx, b.vy)
+				bf, n = compare(b.x, b.x, b.y, va, b.vx, b.vx, b.vy)
+			}
+			if bf != nil {
+				continue // the harmless renderings themselves break the oracle: reported as violations by the cases
 			}
 			if (n == 0) != site.NotInSQL {
 				silent = append(silent, fmt.Sprintf("%s carriers=%d notInSQL=%v statements=%d", site.ID, n, site.NotInSQL, len(b.x)))
@@ -573,12 +577,6 @@ func main() {
 	r.Sample(map[string]string{"site": sites[0].ID, "s": H[0]})
 	r.Sample(map[string]string{"site": sites[len(sites)/2].ID, "s": H[len(H)/2]})
 	r.Sample(map[string]string{"site": sites[len(sites)-1].ID, "s": H[len(H)-1]})
-	if len(a.carrierMis) > 0 {
-		for _, m := range a.carrierMis {
-			fmt.Fprintln(os.Stderr, "carrier self-check:", m)
-		}
-		ev.Fatal("%d sites: the harmless value reaches / does not reach a statement contrary to the site table (fix sites.go or NOTES.md)", len(a.carrierMis))
-	}
 	sort.Slice(a.violations, func(i, j int) bool { return a.violations[i].Idx < a.violations[j].Idx })
 	shown := map[string]int{}
 	for _, v := range a.violations {
@@ -587,6 +585,15 @@ func main() {
 		}
 		r.Violate(v.Class, v.What, map[string]any{"site": v.Site, "s_b64": v.S64})
 	}
+	if len(a.carrierMis) > 0 && r.Violations() == 0 {
+		// the site table says which positions reach a statement; a disagreement without any violation means the
+		// table (or the routing inside the repository) changed: loud, but not a verdict
+		for _, m := range a.carrierMis {
+			fmt.Fprintln(os.Stderr, "carrier self-check:", m)
+		}
+		ev.Fatal("%d sites: the harmless value reaches / does not reach a statement contrary to the site table (fix sites.go or NOTES.md)", len(a.carrierMis))
+	}
+	r.Extra["site_table_disagreements"] = a.carrierMis
 	r.Finish()
 }
 
